@@ -227,6 +227,22 @@ func (engine) Run(src *sim.Src, log *sim.Log, res *sim.Result) {
 		if p.Committed && err == nil {
 			checkCommitted(p, w, res)
 		}
+		// twin execution: the same generation again under exactly the same simulated
+		// choices. A difference means some source of nondeterminism is not owned by the
+		// simulator (goroutine completion order, pointer values, hash seeds, unseeded
+		// randomness): a real divergence between two executions, reported even though
+		// it cannot be replayed from the tape.
+		if res.Violation == nil && !p.Heavy && src.Chance(1, 4) {
+			st2 := *st
+			st2.Stats = nil
+			w2, err2 := generate(p, &st2, false)
+			res.Probe("twin-execution-compared")
+			if ok2, first2 := sameFiles(w.files, w2.files); !ok2 || errText(err2) != errText(err) {
+				res.Fail("C18.unowned", p.ID+":"+first2,
+					"grammar %s: two executions under identical simulated map orders and clock, in one process, differ (first differing file %q, errors %q / %q): the output depends on something else the environment decides (scheduling, addresses, hash seeds, randomness)",
+					p.ID, first2, errText(err), errText(err2))
+			}
+		}
 	}
 	res.Sched = strings.Join(hist, ">")
 	for _, d := range steps {
